@@ -33,6 +33,10 @@ class HarnessError(BaseException):
     """The harness/proxy layer met something it cannot model faithfully."""
 
 
+class TapeMismatch(Exception):
+    """the second computation asked the random stream for a different kind of draw than the first"""
+
+
 class ConcViolation(Exception):
     def __init__(self, label, detail=""):
         super().__init__(f"{label}: {detail}")
@@ -760,9 +764,35 @@ class Ctx:
             return SF(z3.ToReal(v))
         return int(RealFraction(self.model[name]))
 
+    # -- random tape: run a second computation under the *same* random stream as a first one --
+    tape = None
+    tape_mode = None
+    tape_pos = 0
+
+    def tape_record(self):
+        self.tape, self.tape_mode, self.tape_pos = [], "record", 0
+
+    def tape_replay(self):
+        self.tape_mode, self.tape_pos = "replay", 0
+
+    def tape_off(self):
+        self.tape_mode = None
+
     def choose(self, n):
         if n > 1:
             self.real_choices = getattr(self, "real_choices", 0) + 1
+        if self.tape_mode == "replay":
+            if self.tape_pos >= len(self.tape) or self.tape[self.tape_pos][0] != n:
+                raise TapeMismatch(f"draw {self.tape_pos}: {n} outcomes vs recorded {self.tape[self.tape_pos][0] if self.tape_pos < len(self.tape) else None}")
+            v = self.tape[self.tape_pos][1]
+            self.tape_pos += 1
+            return v
+        v = self._choose(n)
+        if self.tape_mode == "record":
+            self.tape.append((n, v))
+        return v
+
+    def _choose(self, n):
         if self.sym:
             return self.ex.choose(n)
         if n <= 1:
